@@ -1048,6 +1048,7 @@ func runTimepbAdd(c *core.Ctx, pkg *packages.Package, fns map[string]*ast.FuncDe
 	exec = func(list []ast.Stmt, st *addState) ([]*addState, error) {
 		cur := []*addState{st}
 		for _, s := range list {
+			s = desugarSwitch(s)
 			var next []*addState
 			for _, st := range cur {
 				switch t := s.(type) {
@@ -1320,4 +1321,58 @@ func min64(a, b int64) int64 {
 		return a
 	}
 	return b
+}
+
+// desugarSwitch turns a tagless switch without fallthrough/break into the equivalent if / else-if chain
+// (the default clause becomes the final else); any other statement is returned unchanged.
+func desugarSwitch(s ast.Stmt) ast.Stmt {
+	sw, ok := s.(*ast.SwitchStmt)
+	if !ok || sw.Tag != nil || sw.Init != nil {
+		return s
+	}
+	bad := false
+	ast.Inspect(sw.Body, func(n ast.Node) bool {
+		switch t := n.(type) {
+		case *ast.FuncLit, *ast.ForStmt, *ast.RangeStmt, *ast.SelectStmt:
+			return false
+		case *ast.SwitchStmt, *ast.TypeSwitchStmt:
+			if n != ast.Node(sw) {
+				return false
+			}
+		case *ast.BranchStmt:
+			if t.Tok == token.BREAK || t.Tok == token.FALLTHROUGH || t.Tok == token.GOTO {
+				bad = true
+			}
+		}
+		return true
+	})
+	if bad {
+		return s
+	}
+	var deflt *ast.CaseClause
+	var cases []*ast.CaseClause
+	for _, cs := range sw.Body.List {
+		cc := cs.(*ast.CaseClause)
+		if cc.List == nil {
+			deflt = cc
+		} else {
+			cases = append(cases, cc)
+		}
+	}
+	var tail ast.Stmt
+	if deflt != nil {
+		tail = &ast.BlockStmt{List: deflt.Body}
+	}
+	for i := len(cases) - 1; i >= 0; i-- {
+		cc := cases[i]
+		cond := cc.List[0]
+		for _, e := range cc.List[1:] {
+			cond = &ast.BinaryExpr{X: cond, Op: token.LOR, Y: e}
+		}
+		tail = &ast.IfStmt{If: cc.Pos(), Cond: cond, Body: &ast.BlockStmt{List: cc.Body}, Else: tail}
+	}
+	if tail == nil {
+		return &ast.EmptyStmt{}
+	}
+	return tail
 }
